@@ -170,7 +170,7 @@ package cli
 //@   ensures error: result != nil ==> isType(result, "*lexer.ParseError") && asType(result, "*lexer.ParseError").Input == c.Spec &&
 //@       0 <= asType(result, "*lexer.ParseError").Pos && asType(result, "*lexer.ParseError").Pos <= len(c.Spec)
 //@   ensures compiled: result == nil ==> c.fsm != nil
-//@   maypanic
+//@   panics user-init-panicked: noFlow(old(trace), trace)
 //@   loop 2 invariant spec: c.Spec == (len(c.options) > 0 ? "[OPTIONS] " : "") + argNames(c.args, $k, fieldHeap(c.args[0].Name))
 //@   loop 2 invariant frame: old(c.init) == nil ==> frame(c.Spec)
 
@@ -247,3 +247,43 @@ package cli
 //@   loop 2 invariant tried: forall i int :: 0 <= i && i < $k ==> !aliasOf(c.commands[i], arg, fieldHeap(c.aliases))
 //@   loop 2 invariant first: firstSubFrom(c, arg, $k, fieldHeap(c.commands), fieldHeap(c.aliases)) ==
 //@       firstSubFrom(c, arg, 0, old(fieldHeap(c.commands)), old(fieldHeap(c.aliases))) && arg == args0[k]
+
+// --- declaring a sub-command (C07: the child inherits the error policy; C04: all its aliases are registered) -----------------
+//@ func (*Cmd).Command
+//@   requires recv: c != nil
+//@   requires named: len(strings_Fields(name)) >= 1
+//@   let n0 = len(c.commands)
+//@   ensures appended: len(c.commands) == n0 + 1 && (forall i int :: 0 <= i && i < n0 ==> c.commands[i] == old(c.commands[i])) &&
+//@       c.commands[n0] != nil && fresh(c.commands[n0])
+//@   ensures inherits-policy: c.commands[n0].ErrorHandling == old(c.ErrorHandling)
+//@   ensures aliases: c.commands[n0].aliases == strings_Fields(name) && c.commands[n0].name == strings_Fields(name)[0] && c.commands[n0].init == init
+//@   ensures tables: c.commands[n0].optionsIdx != nil && c.commands[n0].argsIdx != nil && len(c.commands[n0].options) == 0 &&
+//@       len(c.commands[n0].args) == 0 && len(c.commands[n0].commands) == 0
+
+// --- the application entry points (C14 version flag, C08 spec errors surface before any flow step) ----------------------------
+//@ func (*Cli).parse
+//@   requires recv: cli != nil && cli.Cmd != nil && cli.Cmd.fsm != nil && entry != nil
+//@   requires version-wf: cli.version != nil ==> cli.version.option != nil
+//@   requires wf: allCmdWF(fieldHeap(cli.Cmd.options), fieldHeap(cli.Cmd.args), fieldHeap(cli.Cmd.commands), fieldHeap(cli.Cmd.optionsIdx), fieldHeap(cli.Cmd.argsIdx))
+//@   requires names: noHelpNames(fieldHeap(cli.Cmd.aliases))
+//@   requires hook: exiter != nil
+//@   requires steps: stepsWF(fieldHeap(entry.Do), fieldHeap(entry.Error), fieldHeap(entry.Exiter))
+//@   requires flows: inFlow != nil && outFlow != nil
+//@   maypanic
+//@   mayexit
+//@   let vreq = cli.version != nil && len(args) > 0 && (exists j int :: 0 <= j && j < len(cli.version.option.Names) && cli.version.option.Names[j] == args[0])
+//@   ensures version-short-circuit: vreq ==> result == nil && noFlow(old(trace), trace) &&
+//@       trace[len(old(trace))] == evOut(ival(stdErr), fmt_sprintln(seq(toIface("string", cli.version.version))))
+//@   ensures otherwise-parse: !vreq && helpFrom(args, 0) < 0 ==> trace[len(old(trace))] == evMark("Parse", old(cli.Cmd.fsm))
+
+//@ func (*Cli).Run
+//@   requires recv: cli != nil && cli.Cmd != nil && len(args) >= 1
+//@   requires version-wf: cli.version != nil ==> cli.version.option != nil
+//@   requires wf: allCmdWF(fieldHeap(cli.Cmd.options), fieldHeap(cli.Cmd.args), fieldHeap(cli.Cmd.commands), fieldHeap(cli.Cmd.optionsIdx), fieldHeap(cli.Cmd.argsIdx))
+//@   requires names: noHelpNames(fieldHeap(cli.Cmd.aliases))
+//@   requires hook: exiter != nil
+//@   requires steps: forall q *flow.Step :: q != nil ==> q.Exiter != nil && (q.Do != nil ==> q.Error != nil)
+//@   maypanic
+//@   mayexit
+//@   ensures initialised-first: trace[len(old(trace))] == evMark("doInit", cli.Cmd)
+//@   panics spec-error-before-any-flow: !callOK("doInit", len(old(trace))) ==> noFlow(old(trace), trace)
